@@ -4817,6 +4817,9 @@ impl GlobalInferenceCtx<'_> {
                                     // the constant has no value at all (`size : usize : ;`),
                                     // which has already been reported as a syntax error
                                     None => Ty::Unknown.into(),
+                                    // the constant's definition is malformed (`size : usize usize : 3;`
+                                    // makes the second `usize` its value), which has been reported
+                                    Some(ComptimeResult::Type(_)) => Ty::Unknown.into(),
                                     actual_data => {
                                         panic!(
                                             "{} #{} already checked that the constant was an integer, and yet the data is {actual_data:?}",
